@@ -11,6 +11,7 @@ CONSTANTS
   CacheMisses = FALSE
   VerBumps = FALSE
   Forges = FALSE
+  Legacies = FALSE
   FailKinds = {"reqloop1", "fatal2"}
 VIEW view
 ACTION_CONSTRAINT Emit
